@@ -455,9 +455,12 @@ def setpoints(net):
     pcs = {}
     if "press_control" in net and len(net.press_control):
         t = net.press_control
-        for idx, j, p, a, s in zip(t.index, t.controlled_junction.values, t.controlled_p_bar.values,
-                                   t.control_active.values, t.in_service.values):
-            if a and s:
+        for idx, j, p, a, s, fj, tj in zip(t.index, t.controlled_junction.values, t.controlled_p_bar.values,
+                                           t.control_active.values, t.in_service.values, t.from_junction.values,
+                                           t.to_junction.values):
+            # a controller is part of the returned solution iff both of its end junctions are supplied (C04 decides
+            # what is supplied); otherwise its result row is NaN and its set-point is only a start value
+            if a and s and sup(fj) and sup(tj):
                 pcs.setdefault(int(j), []).append((int(idx), float(p)))
     for j, v in vals.items():
         if sup(j) and j not in pcs:
@@ -468,21 +471,23 @@ def setpoints(net):
             out.append(("controlled_pressure", "press_control", l[0][0], float(pj.at[j]), l[0][1], rel * (1 + abs(l[0][1])), {}))
     if "flow_control" in net and len(net.flow_control):
         t, r = net.flow_control, net.res_flow_control
-        for idx, a, s, m, fj in zip(t.index, t.control_active.values, t.in_service.values, t.controlled_mdot_kg_per_s.values,
-                                    t.from_junction.values):
-            if a and s and sup(fj):
+        for idx, a, s, m, fj, tj in zip(t.index, t.control_active.values, t.in_service.values,
+                                        t.controlled_mdot_kg_per_s.values, t.from_junction.values, t.to_junction.values):
+            if a and s and sup(fj) and sup(tj):
                 out.append(("flow_control_mdot", "flow_control", int(idx), float(r.at[idx, "mdot_from_kg_per_s"]), float(m),
                             rel * (1 + abs(m)), {}))
     if "heat_consumer" in net and len(net.heat_consumer):
         t, r = net.heat_consumer, net.res_heat_consumer
-        for idx, s, m, fj in zip(t.index, t.in_service.values, t.controlled_mdot_kg_per_s.values, t.from_junction.values):
-            if s and sup(fj) and not np.isnan(m):
+        for idx, s, m, fj, tj in zip(t.index, t.in_service.values, t.controlled_mdot_kg_per_s.values, t.from_junction.values,
+                                     t.to_junction.values):
+            if s and sup(fj) and sup(tj) and not np.isnan(m):
                 out.append(("heat_consumer_mdot", "heat_consumer", int(idx), float(r.at[idx, "mdot_from_kg_per_s"]), float(m),
                             rel * (1 + abs(m)), {}))
     if "circ_pump_mass" in net and len(net.circ_pump_mass):
         t, r = net.circ_pump_mass, net.res_circ_pump_mass
-        for idx, s, m, fj in zip(t.index, t.in_service.values, t.mdot_flow_kg_per_s.values, t.flow_junction.values):
-            if s and sup(fj):
+        for idx, s, m, fj, rj in zip(t.index, t.in_service.values, t.mdot_flow_kg_per_s.values, t.flow_junction.values,
+                                     t.return_junction.values):
+            if s and sup(fj) and sup(rj):
                 out.append(("circ_pump_mass_mdot", "circ_pump_mass", int(idx), float(r.at[idx, "mdot_from_kg_per_s"]), float(m),
                             rel * (1 + abs(m)), {}))
     if "circ_pump_pressure" in net and len(net.circ_pump_pressure):
@@ -514,8 +519,17 @@ def setpoints(net):
                 vdot = float(r.at[idx, "vdot_m3_per_s"])
                 exp = float(net.std_types["pump"][st].get_pressure(vdot))
                 tf = float(net.res_junction.at[int(fj), "t_k"]) if "t_k" in net.res_junction else float("nan")
-                out.append(("pump_lift_curve", "pump", int(idx), float(r.at[idx, "deltap_bar"]), exp, 1e-7 * (1 + abs(exp)),
-                            {"vdot": vdot, "t_from_k": float(net.junction.at[int(fj), "tfluid_k"]), "std_type": st}))
+                # what the hook evaluates: the curve at mdot / rho(NORMAL_TEMPERATURE) (pump_component.py)
+                from pandapipes.constants import NORMAL_TEMPERATURE
+                mdot = float(r.at[idx, "mdot_from_kg_per_s"])
+                exp_n = float(net.std_types["pump"][st].get_pressure(mdot / float(net.fluid.get_density(NORMAL_TEMPERATURE))))
+                obs = float(r.at[idx, "deltap_bar"])
+                explained = abs(obs - exp_n) <= 1e-8 * (1 + abs(exp_n))
+                out.append(("pump_lift_curve_at_normal_density", "pump", int(idx), obs, exp_n, 1e-8 * (1 + abs(exp_n)),
+                            {"mdot": mdot, "std_type": st}))
+                out.append(("pump_lift_curve", "pump", int(idx), obs, exp, 1e-7 * (1 + abs(exp)),
+                            {"vdot": vdot, "t_from_k": float(net.junction.at[int(fj), "tfluid_k"]), "std_type": st,
+                             "explained_by_normal_density": bool(explained)}))
     for tbl in ("sink", "source", "mass_storage"):
         if tbl in net and len(net[tbl]):
             t, r = net[tbl], net["res_" + tbl]
